@@ -24,7 +24,7 @@ LEVEL = "exploration"
 REAL = ["direct", "arg", "default", "if", "argname", "argkey"]
 ATOMS = ["", "x", "0", "1", "-1", "1.5", "1e9", "12345678901234567890", "Talk:x", "a/b/c", "{{e}}", "=", "²", "{{e|²=1}}",
          # argument names that look numeric but cannot be converted: non-ASCII digit, more digits than int() accepts
-         "{{pu|x}}", "²=1", "9" * 5000 + "=1", "{{e|" + "9" * 5000 + "=1}}", "{{{" + "1" * 5000 + "|}}}"]
+         "{{pu|x}}", "{{#invoke}}", "{{#invoke:}}", "{{#invoke:m}}", "²=1", "9" * 5000 + "=1", "{{e|" + "9" * 5000 + "=1}}", "{{{" + "1" * 5000 + "|}}}"]
 # a template body that contains a raw private-use character from the range of the internal placeholders
 PU_BODY = "a\U00103000b{{{1}}}"
 ALIASES = {"#ausdruck": "#expr", "#wenn": "#if", "kleinb": "lc", "#laenge": "#len", "auffuellen": "padleft", "seitenname": "PAGENAME"}
